@@ -315,6 +315,15 @@ class IntervalTier(textgrid_tier.TextgridTier):
         matchList = self.crop(start, end, CropCollision.LAX, False).entries
         newTier = self.new()
 
+        # Does a single interval span the whole region? If so, and we're
+        # truncating, its two remaining pieces will be rejoined after shrinking
+        hasSpanningInterval = (
+            collisionMode == constants.EraseCollision.TRUNCATE
+            and len(matchList) == 1
+            and matchList[0].start < start
+            and matchList[0].end > end
+        )
+
         if len(matchList) == 0:
             pass
         else:
@@ -351,15 +360,22 @@ class IntervalTier(textgrid_tier.TextgridTier):
                 if interval.end <= start:
                     newEntryList.append(interval)
                 elif interval.start >= end:
+                    # In floating point arithmetic, (end - diff) is not always
+                    # start. What began at end now begins at start and
+                    # nothing can move to before start
+                    if interval.start == end:
+                        newStart = start
+                    else:
+                        newStart = max(start, interval.start - diff)
                     newEntryList.append(
-                        Interval(
-                            interval.start - diff, interval.end - diff, interval.label
-                        )
+                        Interval(newStart, interval.end - diff, interval.label)
                     )
 
             # Special case: an interval that spanned the deleted
             # section
             for i in range(0, len(newEntryList) - 1):
+                if not hasSpanningInterval:
+                    break
                 rightEdge = newEntryList[i].end == start
                 leftEdge = newEntryList[i + 1].start == start
                 sameLabel = newEntryList[i].label == newEntryList[i + 1].label
